@@ -69,3 +69,47 @@ Proof.
   - apply forallb_forall. vm_compute. reflexivity.
   - discriminate.
 Qed.
+
+(* ---- round 6: which code each arm of a backend-conditional branch runs, and for every optionally compiled kernel the
+   fallback it is PAIRED with (a different implementation, or the same source run uncompiled) and where harness/c10.py runs
+   the pair -- on sorted and on non-monotone inputs for those whose inputs have an order. *)
+Definition expected_flag_branches : list (string * string * string * string * string) := [
+  ("pybaselines/_banded_utils.py"%string, "PenalizedSystem.reset_diagonals"%string, "allow_lower and (not using_pentapy)"%string, ""%string, ""%string);
+  ("pybaselines/_banded_utils.py"%string, "PenalizedSystem.reset_diagonals"%string, "reverse_diags or (using_pentapy and reverse_diags is None)"%string, ""%string, ""%string);
+  ("pybaselines/_banded_utils.py"%string, "PenalizedSystem.solve"%string, "self.using_pentapy"%string, "_pentapy_solver"%string, "len solve_banded solveh_banded"%string);
+  ("pybaselines/_spline_utils.py"%string, "PSpline.__init__"%string, "_HAS_NUMBA and self.basis._x_len * (self.basis.spline_degree + 1) == len(self.ba"%string, ""%string, ""%string);
+  ("pybaselines/_spline_utils.py"%string, "PSpline.solve_pspline"%string, "self._use_numba"%string, "=self.basis.basis.tocsr().data _lower_to_full _numba_btb_bty np.zeros self.basis.basis.tocsr"%string, ""%string);
+  ("pybaselines/_spline_utils.py"%string, "_spline_basis"%string, "_HAS_NUMBA"%string, "=_make_design_matrix"%string, "=BSpline.design_matrix =_slow_design_matrix hasattr"%string);
+  ("pybaselines/misc.py"%string, "_Misc.beads"%string, "_HAS_NUMBA"%string, "_banded_beads"%string, "_sparse_beads"%string);
+  ("pybaselines/polynomial.py"%string, "_Polynomial.loess"%string, "_HAS_NUMBA"%string, "np.ascontiguousarray"%string, "=self._polynomial.vandermonde"%string);
+  ("pybaselines/whittaker.py"%string, "_Whittaker.aspls"%string, "not whittaker_system.using_pentapy"%string, "_shift_rows"%string, ""%string);
+  ("pybaselines/whittaker.py"%string, "_Whittaker.drpls"%string, "not whittaker_system.using_pentapy"%string, "_shift_rows"%string, ""%string);
+  ("pybaselines/whittaker.py"%string, "_Whittaker.drpls"%string, "whittaker_system.using_pentapy"%string, "whittaker_system.reverse_penalty"%string, ""%string);
+  ("pybaselines/whittaker.py"%string, "_Whittaker.iasls"%string, "whittaker_system.using_pentapy"%string, ""%string, ""%string)
+].
+
+Definition expected_kernel_fallbacks : list (string * string * string) := [
+  ("__make_design_matrix"%string, "BSpline.design_matrix / _slow_design_matrix (chosen in _spline_basis)"%string, "pairs: design:* on all x orders"%string);
+  ("_de_boor"%string, "same source (py_func); reached through __make_design_matrix"%string, "pairs: design:*"%string);
+  ("_find_interval"%string, "same source (py_func); reached through __make_design_matrix and _numba_btb_bty"%string, "pairs: design:*, btb:*"%string);
+  ("_numba_btb_bty"%string, "sparse product B.T @ W @ B -> _sparse_to_banded (PSpline.solve_pspline, not self._use_numba)"%string, "pairs: btb:*, bty:*, solve_pspline:arms on all x orders; C10_btb_paths"%string);
+  ("_rolling_std"%string, "same source (py_func)"%string, "oracle: std_distribution, fastchrom incl. large pedestals"%string);
+  ("_numba_banded_dot_banded"%string, "scipy.sparse products of _sparse_beads"%string, "bdb correspondence; C10_beads_*"%string);
+  ("_determine_fits"%string, "same source (py_func)"%string, "oracle: loess"%string);
+  ("_fill_skips"%string, "same source (py_func)"%string, "oracle: loess delta > 0"%string);
+  ("_loess_first_loop"%string, "same source (py_func)"%string, "oracle: loess"%string);
+  ("_loess_low_memory"%string, "same source (py_func)"%string, "oracle: loess conserve_memory"%string);
+  ("_loess_nonfirst_loops"%string, "same source (py_func)"%string, "oracle: loess"%string);
+  ("_loess_solver"%string, "same source (py_func)"%string, "oracle: loess"%string);
+  ("_directional_min_moving_avg"%string, "same source (py_func)"%string, "oracle: peak_filling"%string);
+  ("_quadratic_bezier"%string, "same source (py_func)"%string, "oracle: corner_cutting"%string);
+  ("_quadratic_bezier_spline"%string, "same source (py_func)"%string, "oracle: corner_cutting"%string);
+  ("_interp_inplace"%string, "same source (py_func)"%string, "oracle: golotvin, dietrich, std_distribution, fastchrom, loess delta"%string)
+].
+
+Definition kernel_has_pair (k : string * string * string) : bool :=
+  let '(_, name, _) := k in existsb (fun p => let '(n, _, _) := p in String.eqb n name) expected_kernel_fallbacks.
+
+Lemma branches_ok :
+  flag_branches = expected_flag_branches /\ (forall k, In k jit_functions -> kernel_has_pair k = true).
+Proof. split; [reflexivity|]. apply forallb_forall. vm_compute. reflexivity. Qed.
